@@ -8,6 +8,9 @@
 From Coq Require Import List String Ascii Bool Arith ZArith.
 Import ListNotations.
 From FP Require Import NodeExp NodeExpProofs NodeExpLen.
+From Coq Require Import NArith QArith.
+From FP Require Import Lin PathEnc MiscEnc NodeMefE2E FillSpec.
+Local Close Scope Q_scope.
 Local Open Scope string_scope.
 Local Open Scope list_scope.
 
@@ -291,3 +294,34 @@ Example C11_nonvacuous_decoy :
   ne_L (fst X) "flow" ("a.1", "b.0") = Some 50%Z /\ ne_L (fst X) "flow" ("a.0", "a.1") = Some 5%Z /\ ne_L (fst X) "flow" ("b.0", "b.1") = None /\
   snd X = [("b.0", "b.1"); ("a.1", "b.0")] /\ snd X = snd (ne_expand_core (map ne_strip ex_G_decoy) "flow" None).
 Proof. vm_compute. repeat split. Qed.
+
+(* ---- _try_filling_in_missing_flow_values (FillSpec.v): the contract, and the verified certificate checker that the harness
+   runs on every filling the library produces (certificate = the edge flow networkx returned).  Accepted => the filled values
+   are a node flow (NodeMefE2E.node_flow: the graphs on which the node-mode flow models are applicable) that keeps every
+   given value.  PARTIAL: the failure half of [fill_contract] (nothing is filled only if no extension exists) is not proved
+   for the library; the harness searches an extension with an untrusted probe and lets the checker judge it. *)
+Definition C11_fill_full_statement : Prop :=
+  forall (lib : list node -> list edge -> (node -> option Q) -> option (node -> Q)) V E given, fill_contract V E given (lib V E given).
+
+Theorem C11_fill_certificate_sound_partial : forall V E given filled y,
+  fill_certificate_ok_b V E given filled y = true ->
+  fill_spec V E (fun v => fs_lookup_n v given) (fs_fun_n filled) /\
+  (forall v, In v V -> exists q, fs_lookup_n v filled = Some q).
+Proof. exact fill_certificate_sound. Qed.
+Print Assumptions C11_fill_certificate_sound_partial.
+
+Theorem C11_fill_checker_complete : forall V E given x y,
+  node_flow_w V E false x y -> fill_extends V given x -> fill_certificate_ok_fun_b V E given x y = true.
+Proof. exact fill_certificate_fun_complete. Qed.
+Print Assumptions C11_fill_checker_complete.
+
+(* non-vacuity: chain a(5) -> b(?) -> c(5): b = 5 is accepted, b = 6 is rejected, 5 is the only admissible value;
+   a(5) -> b(?) -> c(3) admits no filling at all *)
+Example C11_nonvacuous_fill :
+  fill_certificate_ok_b fs_V fs_E fs_given [(0%N, 5%Q); (1%N, 5%Q); (2%N, 5%Q)] [((0, 1)%N, 5%Q); ((1, 2)%N, 5%Q)] = true /\
+  fill_certificate_ok_b fs_V fs_E fs_given [(0%N, 5%Q); (1%N, 6%Q); (2%N, 5%Q)] [((0, 1)%N, 5%Q); ((1, 2)%N, 5%Q)] = false /\
+  (forall x, fill_spec fs_V fs_E (fun v => fs_lookup_n v fs_given) x -> (x 1%N == 5)%Q) /\
+  fill_contract fs_V fs_E (fun v => fs_lookup_n v [(0%N, 5%Q); (2%N, 3%Q)]) None.
+Proof.
+  split; [exact fs_chain_accepts|]. split; [exact fs_chain_rejects_changed_value|]. split; [exact fs_chain_unique|exact fs_chain_infeasible].
+Qed.
